@@ -346,6 +346,10 @@ func (tg *target) cacheOp(t []string) (string, int, []string, []string) {
 	case "setdefault":
 		c.SetDefault(t[1], parseVal(t[2]))
 		return "-", 0, nil, nil
+	case "tick":
+		// the clock advances while the other threads are in the middle of their calls
+		vshim.Advance(atoi64(t[1]))
+		return "-", 0, nil, nil
 	case "get":
 		return vb(c.Get(t[1])), 0, nil, nil
 	case "getexp":
@@ -691,6 +695,43 @@ func genProgram(r *rng, kind string, focus string) *program {
 				}
 			}
 			p.threads = append(p.threads, ops)
+		}
+	case "ticks":
+		// the clock advances during the concurrent phase: entries expire between two steps of a call.  Only calls
+		// that read the clock once per decision are used (Compute, GetAndSet, GetAndRefresh and GetWithTTL read it
+		// twice and are specified for a clock that stands still during the call)
+		if !isCache {
+			break
+		}
+		p.prefill = nil
+		for i := 0; i < nkeys; i++ {
+			p.prefill = append(p.prefill, fmt.Sprintf("set k%d %s %d", i, v(), []int64{5, 5, 3_600_000_000_000}[r.intn(3)]))
+		}
+		if r.chance(1, 2) {
+			p.prefill = append(p.prefill, "tick 6")
+		}
+		for i := range p.threads {
+			var ops []string
+			for j := 0; j < 1+r.intn(2); j++ {
+				k := key()
+				if i%2 == 0 {
+					switch r.intn(6) {
+					case 0:
+						ops = append(ops, "get "+k)
+					case 1:
+						ops = append(ops, "getexp "+k)
+					case 2, 3:
+						ops = append(ops, fmt.Sprintf("getorset %s %s %d", k, v(), int64(3_600_000_000_000)))
+					case 4:
+						ops = append(ops, fmt.Sprintf("getorcompute %s %s %d", k, v(), int64(50)))
+					default:
+						ops = append(ops, "getanddelete "+k)
+					}
+				} else {
+					ops = append(ops, fmt.Sprintf("set %s %s %d", k, v(), int64(5)), "tick 6")
+				}
+			}
+			p.threads[i] = ops
 		}
 	case "sweeps":
 		// cleanup passes that overlap or nest (C06): a warm-up pass that evicts at least two entries, then a batch
